@@ -181,7 +181,7 @@ Proof.
       destruct (datagram _ _ _ _ _ _) as [ls' o].
       destruct o; try exact Hsame.
       apply respond_QBn with (T := T); try assumption.
-        intros k x Hin. apply bset_In in Hin as [Hin| ->]; [specialize (HM k x Hin); lia|]. cbn [fst qm_now qmsg_of]. lia.
+        intros k x Hin. apply msgs_after_In in Hin as [Hin| ->]; [specialize (HM k x Hin); lia|]. cbn [fst qm_now qmsg_of]. lia.
     + destruct Hl as (_ & Hq & Hd).
       assert (Hsame : QBn now (f_node f)) by (eapply QBn_mono; eassumption).
       destruct (respond_query (f_ls f) None addr) as [ls' o].
